@@ -209,6 +209,31 @@ def cancels(events, reg):
     return False, None
 
 
+def clears(events, reg):
+    """A loop over reg after which every element's alarm field is None: each iteration stores None or ran under 'alarm is None'."""
+    for lp in loops_over(events, reg):
+        ok = True
+        for bp in lp.a["body"]:
+            if bp.exit_kind() not in ("fall", "continue"):
+                ok = False
+                continue
+            evs = list(bp.walk())
+            st = [e for e in evs if e.kind == "SETATTR" and e.a["field"] == "alarm" and elem_of(e.a["obj"], reg)]
+            if st:
+                if st[-1].a["val"] != NONE:
+                    ok = False
+                continue
+            facts = bp.st.facts if bp.st is not None else {}
+            isnone = any(isinstance(k, tuple) and k[0] in ("nonnull", "truthy") and isinstance(k[1], tuple)
+                         and k[1][0] == "attr" and k[1][2] == "alarm" and elem_of(k[1][1], reg) and v is False
+                         for k, v in facts.items())
+            if not isnone:
+                ok = False
+        if ok:
+            return True, lp
+    return False, None
+
+
 class Lifecycle:
     def __init__(self, analysis, cls):
         self.a = analysis
@@ -245,6 +270,9 @@ class Lifecycle:
 
     def loss_cancels(self, reg):
         return self.all_(self.loss, lambda tr: tr.path.exit_kind() == "raise" or cancels(tr.path.events, reg)[0])
+
+    def loss_clears(self, reg):
+        return self.all_(self.loss, lambda tr: tr.path.exit_kind() == "raise" or clears(tr.path.events, reg)[0])
 
     def resume_rearms(self, reg):
         return self.all_(self.ack_persist + self.ack_unsplit, lambda tr: rearms(tr.path.events, reg)[0])
